@@ -68,6 +68,13 @@ class Raised(Exception):
         self.text = text
 
 
+def is_generator(fdef):
+    for node in ast.walk(fdef):
+        if isinstance(node, (ast.Yield, ast.YieldFrom)):
+            return True
+    return False
+
+
 class Evaluator(object):
     """Evaluate a FunctionDef on given arguments.
 
@@ -88,6 +95,7 @@ class Evaluator(object):
         self.steps = 0
         self.max_steps = max_steps
         self.yielded = None
+        self.iter_hook = None
 
     # ------------------------------------------------------------------
 
@@ -174,6 +182,10 @@ class Evaluator(object):
             it = self.expr(st.iter, env)
             if isinstance(it, Unknown):
                 self.err(st, 'loop over unknown')
+            if isinstance(it, Obj):
+                if self.iter_hook is None:
+                    self.err(st, 'iteration over an abstract object')
+                it = self.iter_hook(it)
             for item in list(it):
                 self.assign(st.target, item, env)
                 self.block(st.body, env)
@@ -412,7 +424,7 @@ class Evaluator(object):
         kwargs = {k.arg: self.expr(k.value, env) for k in e.keywords}
         if isinstance(f, tuple) and f[0] == 'method':
             ret, ys = self.call(f[1], args, kwargs, self_obj=f[2])
-            if ys:
+            if is_generator(f[1]):
                 return ys
             return ret
         if isinstance(f, tuple) and f[0] == 'closure':
